@@ -19,7 +19,7 @@ use crate::props::gcase::{gcase, GCase};
 use crate::runner::{CheckResult, Env, Job, Outcome, PropJob};
 use crate::util::{is_pal, rc, to_ascii, Seq};
 
-pub const RULE: &str = "case = read set R (with caller-supplied boundary extension bytes at table level), a generated subset mask of reads to reverse-complement giving R', threshold, pipeline variant in {direct from hash table, sorted slice, re-compressed one-k-mer-per-node graph, model-sharded + combine + compress_graph}. Unstranded: real table(R) = real table(R') (keys, counts, label sets, extension sets; palindromes up to E∪rc(E)), every key is the string minimum of the k-mer and its reverse complement, graph(R) and graph(R') have the same (k-mer set, payload) parts and the same (K+1)-mer adjacency set. Stranded: the table holds exactly the forward windows of the reads (a k-mer whose reverse complement does not occur forward is absent), the graph's adjacencies are exactly the forward (K+1)-mers between retained k-mers, no edge reports a flip. Non-trivial = mask neither empty nor full and R has a k-mer seen on both strands or a palindrome (unstranded); R has a k-mer whose reverse complement is not a forward window (stranded).";
+pub const RULE: &str = "case = read set R (with caller-supplied boundary extension bytes at table level), a generated subset mask of reads to reverse-complement giving R', threshold, pipeline variant in {direct from hash table, sorted slice, re-compressed one-k-mer-per-node graph, model-sharded + combine + compress_graph, the crate's MSP sharding with a generated permutation}; the flipped table is also computed under forced multi-pass counting and with the flipped reads handed over as rc() views of the stored reads. Unstranded: real table(R) = real table(R') (keys, counts, label sets, extension sets; palindromes up to E∪rc(E)), every key is the string minimum of the k-mer and its reverse complement, graph(R) and graph(R') have the same (k-mer set, payload) parts and the same (K+1)-mer adjacency set. Stranded: the table holds exactly the forward windows of the reads (a k-mer whose reverse complement does not occur forward is absent), the graph's adjacencies are exactly the forward (K+1)-mers between retained k-mers, no edge reports a flip. Non-trivial = mask neither empty nor full and R has a k-mer seen on both strands or a palindrome (unstranded); R has a k-mer whose reverse complement is not a forward window (stranded).";
 pub const TECHNIQUE: &str = "seeded proptest, metamorphic relation (reverse-complement any subset of reads) + string-level stranded model";
 
 #[derive(Debug, Clone, Serialize, Deserialize)]
